@@ -6,14 +6,18 @@ package main
 import (
 	ecommon "github.com/ethereum/go-ethereum/common"
 	etypes "github.com/ethereum/go-ethereum/core/types"
+	cstates "github.com/polynetwork/poly/core/states"
 	"github.com/polynetwork/poly/native"
 	scom "github.com/polynetwork/poly/native/service/cross_chain_manager/common"
 	ccbor "github.com/polynetwork/poly/native/service/cross_chain_manager/polygon"
+	hscom "github.com/polynetwork/poly/native/service/header_sync/common"
 	heth "github.com/polynetwork/poly/native/service/header_sync/eth"
 	"github.com/polynetwork/poly/native/service/header_sync/polygon"
+	polygonTypes "github.com/polynetwork/poly/native/service/header_sync/polygon/types"
 	"github.com/polynetwork/poly/native/service/utils"
 
 	"verifh/kit/nativekit"
+	"verifh/kit/vio"
 )
 
 const (
@@ -43,6 +47,20 @@ func init() {
 			return ccbor.NewHandler().MakeDepositProposal(ns)
 		},
 		NoRule: map[string]bool{"gaslimit": true, "gasused": true, "coinbase": true, "diff0": true, "diff3": true}}
+}
+
+// seedBorSpan writes the span record that an earlier proof-carrying sprint-end header would have left in the header-sync
+// storage (putSpan is unexported; the heimdall proof that normally brings the span is outside this adapter): blocks
+// [G0, SpanEnd], selected producers = the genesis validators, voting power 10.
+func (w *World) seedBorSpan() {
+	span := &polygon.Span{ID: 1, StartBlock: w.Cfg.G0, EndBlock: w.Cfg.SpanEnd, BorChainId: "56"}
+	for i, n := range w.Cfg.Sets[1] {
+		span.SelectedProducers = append(span.SelectedProducers, polygon.Validator{ID: uint64(i + 1), Address: w.Addr[n], VotingPower: 10})
+	}
+	b, err := polygonTypes.NewCDC().MarshalBinaryBare(span)
+	vio.Must(err)
+	w.SB.Cache.Put(utils.ConcatKey(utils.HeaderSyncContractAddress, []byte(hscom.POLYGON_SPAN), utils.GetUint64Bytes(sideChainID)), cstates.GenRawStorageItem(b))
+	w.SB.Cache.Commit()
 }
 
 // borSuccession: distance of signer s from the proposer in the address-ordered validator list (-1: not a validator)
